@@ -31,12 +31,6 @@ Proof.
     cbv zeta; align_sin; ring.
 Qed.
 
-Lemma gcirc_gen_eq : forall units ra1 dec1 ra2 dec2,
-  gcirc_gen units ra1 dec1 ra2 dec2 = gcirc_out units (2 * asin (sqrt (gcirc_h units ra1 dec1 ra2 dec2))).
-Proof.
-  intros. unfold gcirc_gen, gcirc_h. destruct (gcirc_in units ra1 dec1 ra2 dec2) as [[[p1 p2] p3] p4]. reflexivity.
-Qed.
-
 Lemma hav_S_is_chord : forall units ra1 dec1 ra2 dec2, In units gcirc_valid_units ->
   hav_S units ra1 dec1 ra2 dec2 = (1 - dot (pt_S units ra1 dec1) (pt_S units ra2 dec2)) / 2.
 Proof.
@@ -54,6 +48,31 @@ Lemma gcirc_h_range : forall units ra1 dec1 ra2 dec2, In units gcirc_valid_units
 Proof.
   intros units ra1 dec1 ra2 dec2 H. rewrite gcirc_h_is_hav by assumption. rewrite gcirc_valid_units_doc in H.
   destruct H as [<-|[<-|[<-|[]]]]; unfold hav_S; apply hav_range.
+Qed.
+
+(* the same for EVERY value of units (an invalid one makes the source raise; the generated gcirc_in then holds zeros) *)
+Lemma gcirc_h_range_all : forall units ra1 dec1 ra2 dec2, 0 <= gcirc_h units ra1 dec1 ra2 dec2 <= 1.
+Proof.
+  intros units ra1 dec1 ra2 dec2.
+  destruct (Z.eq_dec units 0) as [->|n0]; [apply gcirc_h_range; rewrite gcirc_valid_units_doc; cbn; tauto|].
+  destruct (Z.eq_dec units 1) as [->|n1]; [apply gcirc_h_range; rewrite gcirc_valid_units_doc; cbn; tauto|].
+  destruct (Z.eq_dec units 2) as [->|n2]; [apply gcirc_h_range; rewrite gcirc_valid_units_doc; cbn; tauto|].
+  unfold gcirc_h, gcirc_in.
+  rewrite (proj2 (Z.eqb_neq units 0) n0), (proj2 (Z.eqb_neq units 1) n1), (proj2 (Z.eqb_neq units 2) n2).
+  unfold gcirc_sindis2; cbv zeta. replace (0 / 2) with 0 by field. rewrite sin_0. lra.
+Qed.
+
+(* Two shapes of the last step are supported: `2*arcsin(sindis)` and, guarded against rounding, `2*arcsin(np.minimum(sindis, 1.0))`
+   (fixes/C18-gcirc-antipodal-nan.diff).  The guard is the identity on the exact value because the square-root argument never
+   exceeds 1 (gcirc_h_range_all): that is what the `try rewrite Rmin_left` step proves. *)
+Lemma gcirc_gen_eq : forall units ra1 dec1 ra2 dec2,
+  gcirc_gen units ra1 dec1 ra2 dec2 = gcirc_out units (2 * asin (sqrt (gcirc_h units ra1 dec1 ra2 dec2))).
+Proof.
+  intros. pose proof (gcirc_h_range_all units ra1 dec1 ra2 dec2) as Hr. revert Hr.
+  unfold gcirc_gen, gcirc_h. destruct (gcirc_in units ra1 dec1 ra2 dec2) as [[[p1 p2] p3] p4].
+  unfold gcirc_dis, gcirc_sindis2; cbv zeta. intros Hr.
+  try (rewrite Rmin_left by (rewrite <- sqrt_1; apply sqrt_le_1_alt; apply Hr)).
+  reflexivity.
 Qed.
 
 Lemma gcirc_gen_is_S : forall units ra1 dec1 ra2 dec2, In units gcirc_valid_units ->
